@@ -94,7 +94,8 @@ var ufRegistry = map[string]ufSig{}
 
 // define-fun-rec definitions (name -> full SMT text), printed when referenced.
 var recDefs = map[string]string{}
-var recDefDeps = map[string][]string{}
+var recDefBodies = map[string]*Term{}
+var recDefParams = map[string][]*Term{}
 
 func UF(name string, res Sort, args ...*Term) *Term {
 	name = smtName(name)
@@ -654,6 +655,7 @@ func rebuild(t *Term, na []*Term) *Term {
 // ---- printing a query ----
 
 type Query struct {
+	AbstractRec bool // print recursive spec functions as uninterpreted (weaker hypotheses: proofs stay valid, models are candidates)
 	Name    string
 	Assumes []*Term
 	Goal    *Term // to prove: assumes => goal.  The query asserts not goal.
@@ -711,6 +713,30 @@ func collectDecls(ts []*Term) (consts map[string]Sort, ufs map[string]ufSig, sor
 	}
 	for _, t := range ts {
 		walk(t)
+	}
+	// bodies of referenced recursive definitions contribute declarations too (minus their parameters)
+	done := map[string]bool{}
+	for changed := true; changed; {
+		changed = false
+		for r := range recs {
+			if done[r] {
+				continue
+			}
+			done[r] = true
+			changed = true
+			if b := recDefBodies[r]; b != nil {
+				before := map[string]bool{}
+				for c := range consts {
+					before[c] = true
+				}
+				walk(b)
+				for _, p := range recDefParams[r] {
+					if !before[p.Op] {
+						delete(consts, p.Op)
+					}
+				}
+			}
+		}
 	}
 	return
 }
@@ -817,6 +843,14 @@ func (q *Query) SMTText(produceModels bool) string {
 		b.WriteString(fmt.Sprintf("(declare-fun %s (%s) %s)\n", u, strings.Join(as, " "), sig.res))
 	}
 	for _, r := range keys(recs) {
+		if q.AbstractRec {
+			var as []string
+			for _, p := range recDefParams[r] {
+				as = append(as, string(p.Sort))
+			}
+			b.WriteString(fmt.Sprintf("(declare-fun %s (%s) %s)\n", r, strings.Join(as, " "), recDefBodies[r].Sort))
+			continue
+		}
 		b.WriteString(recDefs[r] + "\n")
 	}
 	p := &printer{refs: map[*Term]int{}, names: map[*Term]string{}}
